@@ -6,6 +6,7 @@
 package main
 
 import (
+	"math/big"
 	"bytes"
 	"context"
 	"encoding/json"
@@ -63,6 +64,21 @@ func mkValid(rnd *rand.Rand, key string) triple {
 	k, _ := crypto.HexToECDSA(key)
 	h := crypto.Keccak256(txt)
 	s, _ := crypto.Sign(h, k)
+	if rnd.Intn(5) == 0 {
+		// the other signature of the same key over the same hash: (r, N - s, v xor 1); recoverable, hence well formed
+		n := crypto.S256().Params().N
+		sv := new(big.Int).Sub(n, new(big.Int).SetBytes(s[32:64]))
+		tw := append([]byte(nil), s...)
+		sb := sv.Bytes()
+		for i := 32; i < 64; i++ {
+			tw[i] = 0
+		}
+		copy(tw[64-len(sb):64], sb)
+		tw[64] ^= 1
+		if _, err := crypto.Ecrecover(h, tw); err == nil {
+			return triple{kind: "valid-high-s", receipt: string(txt), hash: h, sig: tw}
+		}
+	}
 	return triple{kind: "valid", receipt: string(txt), hash: h, sig: s}
 }
 
@@ -120,7 +136,7 @@ func main() {
 	const key = "4c0883a69102937d6231471b5dbb6204fe5129617082792ae468d01a3f362318"
 
 	for round := 0; round < *rounds; round++ {
-		mode := []string{"up", "slow", "down", "up-smallqueue", "race-full"}[round%5]
+		mode := []string{"up", "slow", "down", "up-smallqueue", "race-full", "flaky", "error"}[round%7]
 		if mode == "race-full" {
 			raceFull(rnd, key, round)
 			continue
@@ -137,6 +153,19 @@ func main() {
 				mu.Lock()
 				got = append(got, fmt.Sprintf("%s %q|%x|%x", r.URL.Path, p.Receipt, p.Hash, p.Signature))
 				mu.Unlock()
+			}
+			switch mode {
+			case "flaky":
+				// the credit service has the receipt and the connection breaks before it can say so
+				if hj, ok := w.(http.Hijacker); ok {
+					if c, _, err := hj.Hijack(); err == nil {
+						c.Close()
+						return
+					}
+				}
+			case "error":
+				w.WriteHeader(500)
+				return
 			}
 			w.WriteHeader(200)
 		}))
@@ -343,7 +372,8 @@ func raceFull(rnd *rand.Rand, key string, round int) {
 			ch <- ncsclient.ReceiptPayload{Receipt: v.receipt, Hash: v.hash, Signature: v.sig}
 		}
 		const n = 16
-		var ready, goFlag, finished int32
+		var ready, finished int32
+		start := make(chan struct{})
 		var mu sync.Mutex
 		acc, busy, blocked, other := 0, 0, 0, 0
 		for i := 0; i < n; i++ {
@@ -354,8 +384,7 @@ func raceFull(rnd *rand.Rand, key string, round int) {
 				Timestamp: timestamppb.Now(), RequestId: uint32(i + 1), Receipt: v.receipt, Hash: v.hash, Signature: v.sig})
 			go func() {
 				atomic.AddInt32(&ready, 1)
-				for atomic.LoadInt32(&goFlag) == 0 {
-				}
+				<-start
 				h.HandleReceipt(context.Background(), cap, msg)
 				mu.Lock()
 				if len(cap.msgs) != 1 {
@@ -379,8 +408,10 @@ func raceFull(rnd *rand.Rand, key string, round int) {
 		for atomic.LoadInt32(&ready) < n {
 			time.Sleep(time.Millisecond)
 		}
-		atomic.StoreInt32(&goFlag, 1)
-		deadline := time.Now().Add(400 * time.Millisecond)
+		close(start)
+		// a submission that blocks blocks for good (nobody reads the queue): a generous deadline costs nothing on a
+		// correct tree and does not mistake a loaded machine for a blocked handler
+		deadline := time.Now().Add(5 * time.Second)
 		for atomic.LoadInt32(&finished) < n && time.Now().Before(deadline) {
 			time.Sleep(time.Millisecond)
 		}
